@@ -379,7 +379,8 @@ def main():
             run.violation("wire format: %s" % wf, rep)
             continue
         cl = classify(cmds, res["accepted"], cfg, evs)
-        reset_ok = 0 not in cfg["corrupt"]          # the hypothesis of the theorem: the reset transmission got through
+        # the hypotheses of the two completeness theorems: the reset got through, or the firmware boots expecting N0
+        reset_ok = (0 not in cfg["corrupt"]) or cfg["boot"] == 0
         if cl and reset_ok and res.get("resendfrom", 0) == -1:
             # C15_complete_unless_late_resend: with the reset through, an incomplete job at quiescence leaves resendfrom set
             found = True
